@@ -17,7 +17,7 @@ THEOREMS = [
     "QExPy.C02_sample_size",
     "QExPy.C02_chol2_correct", "QExPy.C02_chol2_none", "QExPy.C02_chol3_correct",
     "QExPy.C02_chol3_none", "QExPy.C02_witness_not_posdef", "QExPy.C02_chol_matrix",
-    "QExPy.C02_factor_cases",
+    "QExPy.C02_shortcut_generated", "QExPy.C02_factor_cases",
     "QExPy.C02_sample_mean_transform", "QExPy.C02_sample_cov_transform",
     "QExPy.C02_standardised_draws", "QExPy.C02_draws_carry_correlations3", "QExPy.C02_affine_exact",
     "QExPy.C02_result_def", "QExPy.C02_result_moments", "QExPy.C02_discard", "QExPy.C02_kept_le",
